@@ -269,6 +269,25 @@ CHECKS = {
         design='6 (C14)',
         note='three nodes incl. the root (four in the cyclic families); '
              'Python-2 str oids only with bytes < 0x80'),
+    'C15': dict(
+        technique='explicit-state exploration of all histories up to a depth '
+                  'x every historical point (tid and datetime forms) on a real '
+                  'DB, reads compared with the recorded past states',
+        text='All histories (depth 6 quick / 7 thorough) over modify / create '
+             '/ modify the new object / undo (incl. undo of a creation) / '
+             'unlink + storage-level delete, with several transactions per '
+             'clock second. At every node a historical connection is opened '
+             'at every tid, before every tid, before tid+1, and at / before '
+             'naive and timezone-aware datetimes between transactions; every '
+             'object is read and compared with the state recorded when that '
+             'transaction committed, again after two more live commits, and '
+             'through a historical connection kept open across them. A write '
+             'through a historical connection must raise and store nothing; '
+             'a point later than the newest transaction must raise '
+             'ValueError.',
+        design='5 (C15)',
+        note='no pack in the histories (points older than the last pack are '
+             'excluded by the property)'),
     'C19': dict(
         technique='explicit-state exploration of the real fsIndex over a '
                   '12-key alphabet, every query compared with a sorted dict',
